@@ -13,15 +13,17 @@ CONFIGS = {
     # three keys, stamps more than a forgiveness period apart: a bulk request can move the cut-off of its own origin mid-way
     "K5": dict(Keys={1, 2, 3}, Nodes={1}, Times={0, 3}, MaxReqs=2),
     "K6": dict(Keys={1, 2, 3}, Nodes={1}, Times={0, 1, 3}, MaxReqs=2),
+    # single requests only, stamps far apart, up to 5 requests: purges that really remove tombstones, with storage failures
+    "K7": dict(Keys={1, 2}, Nodes={1}, Times={0, 3, 4}, MaxReqs=5, WithBulk=False, WithCrash=False),
 }
-TIERS = {"quick": ["K1", "K3", "K5"], "thorough": ["K1", "K2", "K3", "K4", "K5", "K6"]}
+TIERS = {"quick": ["K1", "K3", "K5", "K7"], "thorough": ["K1", "K2", "K3", "K4", "K5", "K6", "K7"]}
 INVARIANTS = ["C02_Agree", "C07_AckedVisible", "WellFormedInv"]
 PROPERTIES = ["C07_RebuildExact"]
 
 
 def _one(ctx, binary, name):
     c = CONFIGS[name]
-    consts = dict(c, Sources={0, 1}, F=2, FixD6=True, SortBulk=True, WithCrash=True)
+    consts = dict(dict(Sources={0, 1}, F=2, FixD6=True, SortBulk=True, WithCrash=True, WithBulk=True), **c)
     mc_cfg = vlib.cfg_text(constants=dict(consts, EmitEdges=False), invariants=INVARIANTS, properties=PROPERTIES, view="MCView")
     mc, text = vlib.run_tlc(ctx, "Keyspace", mc_cfg, "mc_" + name, workers=5, extra=["-coverage", "1"], timeout=2400)
     mc_ok = vlib.require_clean_mc(ctx, mc, text, "Keyspace/" + name)
@@ -72,12 +74,15 @@ def judge(ctx, results, prop):
         raise vlib.ToolError("vacuous: no crash / restart edge")
     if prop == "C02" and sum(r["rep"]["failed_storage_edges"] for r in results) == 0:
         raise vlib.ToolError("vacuous: no storage failure edge")
+    if prop == "C02" and sum(r["rep"].get("effective_purge_failures", 0) for r in results) == 0:
+        raise vlib.ToolError("vacuous: no purge that removes tombstones met a storage failure")
     return {
         "states": sum(r["mc"]["distinct"] for r in results), "transitions": sum(r["mc"]["generated"] for r in results),
         "traces_validated_against_impl": sum(r["rep"]["evaluations"] for r in results),
         "samples": samples[:5], "exhaustive": True, "drift_edges": sum(r["rep"]["drift"] for r in results),
         "configs": [dict(name=r["name"], constants=r["constants"], mc_distinct=r["mc"]["distinct"], mc_generated=r["mc"]["generated"],
                          replayed_edges=r["rep"]["evaluations"], by_kind=r["rep"]["by_kind"], crash_edges=r["rep"]["crash_edges"],
-                         failed_storage_edges=r["rep"]["failed_storage_edges"], drift=r["rep"]["drift"]) for r in results],
+                         failed_storage_edges=r["rep"]["failed_storage_edges"], effective_purges=r["rep"].get("effective_purges"),
+                         effective_purge_failures=r["rep"].get("effective_purge_failures"), drift=r["rep"]["drift"]) for r in results],
         "checker_cmd": results[0]["mc"]["cmd"],
     }
